@@ -68,10 +68,14 @@ def root(body, op_or_local, through_calls=ADAPTERS, max_steps=64):
             if o.get("k") == "const":
                 return ("const", o)
             if o.get("k") in ("copy", "move"):
+                if any(e != "*" for e in o["pl"]["p"]):
+                    return ("rv", rv, d[1], d[2], l)      # a field / variant payload is not its base
                 l = o["pl"]["l"]
                 continue
             return ("rv", rv)
         if k in ("ref", "rawptr"):
+            if any(e != "*" for e in rv["pl"]["p"]):
+                return ("rv", rv, d[1], d[2], l)
             l = rv["pl"]["l"]
             continue
         return ("rv", rv, d[1], d[2], l)
@@ -102,6 +106,8 @@ def derived(body, seeds, calls="all", fields=True, stop_calls=()):
         for pl, rv in assigns:
             if pl["l"] in t:
                 continue
+            if "*" in pl["p"]:
+                continue        # a store through a pointer does not make the pointer itself derived
             if rv_locals(rv) & t:
                 t.add(pl["l"])
                 changed = True
@@ -387,3 +393,14 @@ def awaits(body):
         src = r[1] if r[0] == "call" else None
         out.append(Await(body, i, p, ybb, src))
     return out
+
+
+def payload_source(body, op_or_local, variants=("Some", "Ok", "Continue", "Ready")):
+    """If the value is `X as V.0` for V in variants, returns root(X) (e.g. the call that produced the Option)"""
+    r = root(body, op_or_local)
+    if r[0] == "rv" and r[1]["k"] == "use" and r[1]["op"].get("k") in ("copy", "move"):
+        p = r[1]["op"]["pl"]
+        names = [e.get("vn") for e in p["p"] if isinstance(e, dict) and "v" in e]
+        if names and all(n in variants for n in names):
+            return root(body, p["l"])
+    return None
